@@ -56,18 +56,26 @@ def gen_cases(rng, tier):
             v = rng.choice(BYTES)
         else:
             v = gen_value(rng, 3, pick == "json")
-        cases.append({"config": cfg, "key": rng.choice(KEYS), "value": _enc(v)})
+        custom = None
+        if pick != "json" and rng.random() < 0.12:
+            custom = rng.choice(["early", "late"])
+            v = serrun.Money(rng.choice([0, 5, 123, -1]))
+        cases.append({"config": cfg, "key": rng.choice(KEYS), "value": _enc(v), "custom": custom})
     return cases
 
 
 # JSON-able encoding of arbitrary generated values (evidence samples / replays)
 def _enc(v):
     import base64, pickle
+    if isinstance(v, serrun.Money):
+        return {"repr": repr(v), "money": v.a}
     return {"repr": repr(v)[:200], "pickle": base64.b64encode(pickle.dumps(v)).decode()}
 
 
 def _dec(e):
     import base64, pickle
+    if "money" in e:
+        return serrun.Money(e["money"])
     return pickle.loads(base64.b64decode(e["pickle"]))
 
 
@@ -77,7 +85,13 @@ def run_impl(case):
     cfg = case["config"]
 
     async def go():
+        pre = {"cenc": []}
+        if case.get("custom") == "early":
+            serrun.register_money(pre)
         mem, rec = serrun.make(cfg)
+        rec["cenc"] = pre["cenc"]
+        if case.get("custom") == "late":
+            serrun.register_money(rec)
         try:
             await mem.init()
             out = {}
@@ -102,9 +116,10 @@ def run_impl(case):
             await mem.close()
         finally:
             rec["restore"]()
+            serrun.unregister_money()
         # monitor the pickler contract on this value
         mon = {"pickled": len(rec["dumps"]) > 0}
-        return {"out": out, "rec": {k: rec[k] for k in ("dumps", "loads", "macs")}, "mon": mon}
+        return {"out": out, "rec": {k: rec[k] for k in ("dumps", "loads", "macs", "cenc")}, "mon": mon}
     res = vclock.run(go)
     res["_v"] = v
     return _Obs(res)
@@ -125,6 +140,7 @@ def to_coq(case, obs):
     v = live["_v"]
     vc = ids.coq(v)
     dt, lt, mt = serrun.tables(live["rec"], ids)
+    ct = serrun.ctable(live["rec"], ids)
     st = live["out"]["stored"]
     if type(st) is int and not isinstance(st, bool): so = C("SInt", serrun.Z(st))
     elif isinstance(st, bytes): so = C("SBytes", S(serrun.lat(st)))
@@ -132,7 +148,7 @@ def to_coq(case, obs):
     if not live["out"]["stored_same"]:
         so = C("SObj", C("VOpq", serrun.Z(999)))
     key = serrun.lat(case["key"].encode())
-    return C("CRt", serrun.cfg_coq(case["config"]), S(key), vc, dt, lt, mt, so, serrun.dres(live["out"]["get"], ids), serrun.dres(live["out"]["many"], ids))
+    return C("CRt", serrun.cfg_coq(case["config"]), S(key), vc, dt, lt, mt, ct, so, serrun.dres(live["out"]["get"], ids), serrun.dres(live["out"]["many"], ids))
 
 
 def nontrivial(case, obs):
@@ -143,7 +159,7 @@ def classify(case, obs):
     v = obs.live["_v"]
     cfg = case["config"]
     return {"type_" + type(v).__name__: 1, "pickler_" + cfg["pickler"]: 1, "secret": int(cfg["secret"]), "digest_" + cfg["digest"]: 1,
-            "get_raised": int(isinstance(obs.live["out"]["get"], dict) and "exc" in obs.live["out"]["get"])}
+            "custom_" + str(case.get("custom")): 1, "get_raised": int(isinstance(obs.live["out"]["get"], dict) and "exc" in obs.live["out"]["get"])}
 
 
 def shrink(case):
